@@ -953,6 +953,10 @@ fn do_bind(c: &Case, p: ParsedTestCase, buf: &mut String) -> Option<TestCase> {
             None
         }
         Ok(Ok(tc)) => {
+            // the caller's signals come back as they were given, in that order, followed by the declared ones
+            if tc.signals.len() < c.sigs.len() || tc.signals[..c.sigs.len()] != c.sigs[..] {
+                out(buf, "BIND panic # the bound test's signal list does not start with the signals it was given");
+            }
             let disp = format!("{tc}");
             out(buf, &format!("PROG {}", hex_encode(&testcase_prog(&disp))));
             out(buf, "BIND ok");
